@@ -269,6 +269,15 @@ def _ctx_table():
     add("sentence_question", lambda T: math(mi("y"), mo("="), *T, mo("?")))
     add("sentence_comma_mrow", lambda T: math(mrow(mi("y"), mo("="), *T, mo(","))), right=[("p", ",")], ends=True)
     add("sentence_period_sum_mrow", lambda T: math(mrow(mi("a"), mo("+"), mi("b"), mo("="), *T, mo("."))), right=[("p", ".")], ends=True)
+    # companions: another number-like run earlier or later in the SAME row, separated from the number by an operator (so it does not touch
+    # it): whether the number folds must not depend on a mark that leads the row or on how a sibling number is spelled
+    add("after_lead_comma", lambda T: math(mo(","), mn("75"), mo("+"), *T), last=True)
+    add("after_lead_period", lambda T: math(mo("."), mn("75"), mo("+"), *T), last=True)
+    add("after_lead_comma_mrow", lambda T: math(_el("mfrac", mrow(mo(","), mn("75"), mo("+"), *T), mi("x"))))
+    add("after_split_comma", lambda T: math(mn("3"), mo(","), mn("25"), mo("+"), *T, mo("−"), mi("x")))
+    add("after_split_period", lambda T: math(mn("3"), mo("."), mn("25"), mo("+"), *T, mo("−"), mi("x")))
+    add("before_split_period", lambda T: math(*T, mo("+"), mn("3"), mo("."), mn("25"), mo("−"), mi("x")))
+    add("before_split_comma", lambda T: math(*T, mo("+"), mn("3"), mo(","), mn("25"), mo("−"), mi("x")))
     return C
 
 
